@@ -357,7 +357,7 @@ def gen_content(rng, tier, allow_cr=True, min_lines=0):
 
 class C11Prop(LineFileBase):
     pid = "C11"
-    quick_cases = 500
+    quick_cases = 1500
     thorough_cases = 6000
     rule = ("file contents from {empty, empty lines, multi-byte UTF-8, lines > 8192 bytes (thorough: > 65536), lone \\r and "
             "\\r\\n, missing final \\n} x all eight variants (unmodified) x index sources {built, offset list, index file, "
@@ -451,7 +451,7 @@ class C11Prop(LineFileBase):
 
 class C12Prop(LineFileBase):
     pid = "C12"
-    quick_cases = 500
+    quick_cases = 1500
     thorough_cases = 6000
     rule = ("initial contents of 0-12 lines x the four mutable variants (plain and record) x edit scripts to length 30 (item "
             "assignment, deletion, insert, append, extend, pop, remove, reverse, += (lists, tuples, one-shot iterables), negative and out-of-range positions) "
